@@ -40,6 +40,307 @@ Theorem connectivity_closed :
 Proof. exact connectivity_closed_lemma. Qed.
 Print Assumptions connectivity_closed.
 
+(* ================================================================================================ *)
+(* Part 1b (stdlib): the numeric core AS CODED -- fill_* of vnacal_apply.c (Cal/ApplyModel.v), one
+   frequency of vnacal_new_solve without unknown parameters (Cal/SolveSimple.v: leakage means, assembly
+   of a_matrix / b_vector, unity term, convert_ue14_to_e12), instantiated at the Gaussian rationals with
+   the LU / least-squares models of C19 (Cal/CalQI.v).  Both models are tied to the compiled code by
+   exact comparison on every run (checks/C01.py, lib/calcore_num.py). *)
+Require Import QArith Qcanon.
+Require Import LV.Base.CField LV.Base.QcI LV.Lin.MatL LV.Lin.LuModel LV.Lin.LuQI LV.Lin.LuQI2 LV.Lin.LuGenA
+               LV.Lin.LuProofs LV.Lin.LsSpec.
+Require Import LV.Cal.Sym LV.Cal.ApplyModel LV.Cal.ApplyProofs LV.Cal.SolveSimple LV.Cal.SolveProofs
+               LV.Cal.E12Proofs LV.Cal.LeakProofs LV.Cal.SolveUnique LV.Cal.CalQI LV.Cal.ApplyIdentity
+               LV.Cal.AssembleIdentity LV.Cal.LinUnique LV.Cal.ApplyRecovers LV.Cal.SolveRecovers LV.Cal.EndToEnd.
+Local Open Scope nat_scope.
+
+(* ---- apply: the fill functions ---- *)
+
+(* Bound in the statement: the 8 stored types x the shapes apply accepts with dimensions 1..4 (1x1..4x4
+   and 1x2 for T / 2x1 for U, E: 40 cases).  As rational functions of the error terms and measured cells
+   (symbolic values, Cal/Sym.v, normal forms compared by computation) the matrices (A, B) filled by
+   fill_t8/u8/t16/u16/ue14/e12 as coded are the block expressions Ts - M' Tx, M' Tm - Ti; Ux M' + Us,
+   Um M' + Ui; the per-column forms for UE14 and E12 (ApplyModel.spec_fill). *)
+Theorem fill_eq_spec : forall c, In c apply_cases -> check_fill c = true.
+Proof. exact fill_eq_spec_lemma. Qed.
+Print Assumptions fill_eq_spec.
+
+Theorem fill_eq_spec_nonvacuous : length apply_cases = 40 /\ length (refused_shapes U16) = 5.
+Proof. exact fill_cases_count. Qed.
+Print Assumptions fill_eq_spec_nonvacuous.
+
+(* No bound, no symbolic layer: for EVERY field K, every case of apply_cases and ALL error-term vectors
+   e, measured matrices m and candidate matrices s of the right lengths, the filled (A, B) satisfy
+   (A S - B)[i,j] = - doc[i,j] (T) resp. (S A - B)[i,j] = - doc[i,j] (U, UE14, E12), doc being the
+   documented expression of vnacal_layout.h at (e, m, s) (ApplyIdentity.doc_cell; for 1x2 / 2x1 the two
+   orientations of the two-port).  So S solves the filled system iff the documented equation holds. *)
+Theorem fill_solves (K : CField) (ty : caltype) (mr mc : nat) (e m s : list K) :
+  In (ty, (mr, mc)) apply_cases ->
+  let p := Nat.max mr mc in
+  length e = nterms ty mr mc -> length m = p * p -> length s = p * p ->
+  exists m' a b, apply_fill (ops_of K) ty mr mc e m = Filled m' a b /\
+    forall i j, i < p -> j < p ->
+      csub (prod_cell K ty mr mc a s i j) (g (ops_of K) b (i * p + j)) = copp (doc_cell K ty mr mc e m s i j).
+Proof. exact (fill_solves_lemma K ty mr mc e m s). Qed.
+Print Assumptions fill_solves.
+
+(* No bound: every value type, type code, dimensions and arrays.  A calibration that is neither square
+   nor has 2 ports is refused before any fill function runs; every other shape is not refused; and for
+   the dimensions a type allows the assert(m_rows == m_columns) of the fill functions cannot fail. *)
+Theorem apply_refuses_other_shapes (O : Ops) (ty : caltype) (mr mc : nat) (e m : list O) :
+  mr <> mc -> Nat.max mr mc <> 2 -> apply_fill O ty mr mc e m = Refused.
+Proof. exact (apply_refuses_other_shapes_lemma O ty mr mc e m). Qed.
+Print Assumptions apply_refuses_other_shapes.
+
+Theorem apply_accepts_shape (O : Ops) (ty : caltype) (mr mc : nat) (e m : list O) :
+  mr = mc \/ Nat.max mr mc = 2 -> apply_fill O ty mr mc e m <> Refused.
+Proof. exact (apply_accepts_shape_lemma O ty mr mc e m). Qed.
+Print Assumptions apply_accepts_shape.
+
+Theorem apply_assert_unreachable (O : Ops) (ty : caltype) (mr mc : nat) (e m : list O) :
+  1 <= mr -> 1 <= mc -> (if VNACAL_IS_T ty then mr <= mc else mc <= mr) ->
+  apply_fill O ty mr mc e m <> FAssert.
+Proof. exact (apply_assert_unreachable_lemma O ty mr mc e m). Qed.
+Print Assumptions apply_assert_unreachable.
+
+(* ---- solve: assembly of the linear systems ---- *)
+
+(* Bound in the statement: the 704 configurations of all_cfgs (8 types, dims 1..4, every port set; one
+   standard without known-zero cells).  As polynomials (symbolic values) the residual sum_k a_k x_k - b
+   of every row assembled by the model of _vnacal_new_solve_simple is the cell (eq_row, eq_col) of the
+   documented matrix expression, unity term = 1, blocks read through the regenerated layout. *)
+Theorem assembled_eq_matrix_cell : forall c, In c all_cfgs -> check_assembled c = true.
+Proof. exact assembled_eq_matrix_cell_lemma. Qed.
+Print Assumptions assembled_eq_matrix_cell.
+
+(* The same for EVERY field K and all values, without the symbolic layer.  Bound in the statement:
+   small_cfgs = dims 1..3 (224 configurations, 518 equations). *)
+Theorem assembled_row_is_equation_cell (K : CField) : forall c, In c small_cfgs -> assembled_identity K c.
+Proof. exact (assembled_identity_all K). Qed.
+Print Assumptions assembled_row_is_equation_cell.
+
+Theorem assembled_row_is_equation_cell_nonvacuous :
+  length small_cfgs = 224 /\
+  fold_left (fun n c => match add_common (cfg_args c) with Accepted m => n + length (ms_eqs m) | _ => n end)
+            small_cfgs 0 = 518.
+Proof. exact small_cfgs_size. Qed.
+Print Assumptions assembled_row_is_equation_cell_nonvacuous.
+
+(* ---- solve: leakage means ---- *)
+
+(* Every field in which the sample counts are invertible, every list of standards, every cell: if every
+   measurement that contributes a sample to the leakage term of the cell has the value x there, the mean
+   that the solver subtracts and saves is x.  (That such a cell measures El is the block-diagonal argument
+   of vnacal_layout.h; tested end to end, not proved.) *)
+Theorem leak_mean_exact (K : CField) (mr mc : nat) (ms : list (mvals (ops_of K))) (r c : nat) (x v : K) :
+  (forall mv, In mv ms -> sampled K mr mc mv r c = true -> g (ops_of K) (mv_m _ mv) (r * mc + c) = x) ->
+  (forall n : nat, n <> 0 -> onat (ops_of K) n <> c0) ->
+  leak_mean (ops_of K) mr mc ms (r, c) = Some v -> v = x.
+Proof. exact (leak_mean_exact_lemma K mr mc ms r c x v). Qed.
+Print Assumptions leak_mean_exact.
+
+Theorem leak_mean_exact_nonvacuous :
+  (forall mv, In mv lk_ms -> sampled QIF 2 2 mv 0 1 = true -> g (ops_of QIF) (mv_m _ mv) (0 * 2 + 1) = lk_x) /\
+  (forall n : nat, n <> 0 -> onat (ops_of QIF) n <> @c0 QIF) /\
+  exists v, leak_mean (ops_of QIF) 2 2 lk_ms (0, 1) = Some v.
+Proof. exact LeakProofs.leak_mean_exact_nonvacuous. Qed.
+Print Assumptions leak_mean_exact_nonvacuous.
+
+(* ---- solve: UE14 -> E12 ---- *)
+
+(* Bound in the statement: 1x1..4x4 and 2x1.  On symbolic values, the E12 terms produced by
+   convert_ue14_to_e12 as coded make fill_e12 produce, cell by cell, the (A, B) of fill_ue14 on the UE14
+   terms divided by the column's scalar n_c = us_c - ui_c ux_cc / um_cc (so B A^-1 is unchanged). *)
+Theorem ue14_to_e12_sound :
+  forall rc, In rc ((1, 1) :: (2, 2) :: (3, 3) :: (4, 4) :: (2, 1) :: nil) -> check_e12 rc = true.
+Proof. exact ue14_to_e12_sound_lemma. Qed.
+Print Assumptions ue14_to_e12_sound.
+
+(* the scalar identities behind it, every field *)
+Theorem ue14_to_e12_diag_cell (K : CField) (um_c ui ux_c us m : K) :
+  um_c <> c0 -> csub us (cdiv (cmul ui ux_c) um_c) <> c0 ->
+  let n := csub us (cdiv (cmul ui ux_c) um_c) in
+  let el := cdiv (csub c0 ui) um_c in let er := cdiv n um_c in let em := cdiv ux_c um_c in
+  let b12 := cdiv (csub m el) er in let a12 := cadd c1 (cmul em b12) in
+  cmul b12 n = cadd (cmul m um_c) ui /\ cmul a12 n = cadd (cmul m ux_c) us.
+Proof. exact (e12_diag_cell K um_c ui ux_c us m). Qed.
+Print Assumptions ue14_to_e12_diag_cell.
+
+Theorem ue14_to_e12_offdiag_cell (K : CField) (um_c um_r ui ux_c ux_r us m el_in : K) :
+  um_c <> c0 -> um_r <> c0 -> csub us (cdiv (cmul ui ux_c) um_c) <> c0 ->
+  let n := csub us (cdiv (cmul ui ux_c) um_c) in
+  let er := cdiv n um_r in let em := cdiv ux_r um_r in
+  let b12 := cdiv (csub m el_in) er in let a12 := cadd c0 (cmul em b12) in
+  cmul b12 n = cmul (csub m el_in) um_r /\ cmul a12 n = cmul (csub m el_in) ux_r.
+Proof. exact (e12_offdiag_cell K um_c um_r ui ux_c ux_r us m el_in). Qed.
+Print Assumptions ue14_to_e12_offdiag_cell.
+
+Theorem ue14_to_e12_scalars_nonvacuous :
+  let um : QIF := mkqi 2 1 0 1 in let ui : QIF := mkqi 1 2 0 1 in
+  let ux : QIF := mkqi 1 3 0 1 in let us : QIF := mkqi 1 1 0 1 in
+  um <> @c0 QIF /\ csub us (cdiv (cmul ui ux) um) <> @c0 QIF.
+Proof. exact e12_scalars_nonvacuous. Qed.
+Print Assumptions ue14_to_e12_scalars_nonvacuous.
+
+(* ---- solve: what the exact solver models guarantee (instances of the C19 theorems), every n ---- *)
+
+Theorem solve_square_exact (n : nat) (a b : mat QIF) :
+  wf n n a -> pivots_nonzero QIF Qc qi_nrm Qcmult Qc_ltb 0%Qc row_scale_of_max a n -> wf n 1 b ->
+  forall i, i < n -> mget QIF (mmul QIF n n 1 a (fst (q_mldivide a b n 1))) i 0 = mget QIF b i 0.
+Proof. exact (solve_square_exact_lemma n a b). Qed.
+Print Assumptions solve_square_exact.
+
+Theorem solve_square_unique (n : nat) (a : mat QIF) :
+  wf n n a -> pivots_nonzero QIF Qc qi_nrm Qcmult Qc_ltb 0%Qc row_scale_of_max a n ->
+  forall v, in_kernel QIF a n v -> forall k, k < n -> v k = c0.
+Proof. exact (solve_square_unique_lemma n a). Qed.
+Print Assumptions solve_square_unique.
+
+Theorem solve_square_nonvacuous :
+  wf 2 2 su_a /\ pivots_nonzero QIF Qc qi_nrm Qcmult Qc_ltb 0%Qc row_scale_of_max su_a 2 /\ wf 2 1 su_b.
+Proof. exact SolveUnique.solve_square_nonvacuous. Qed.
+Print Assumptions solve_square_nonvacuous.
+
+Theorem solve_tall_consistent_exact (m n : nat) (a b x : mat QIF) :
+  q2_ls_solve m n 1 a b = Some x ->
+  (exists x0 : mat QIF, forall i k, i < m -> k < 1 -> mget QIF (mmul QIF m n 1 a x0) i k = mget QIF b i k) ->
+  forall i, i < m -> mget QIF (mmul QIF m n 1 a x) i 0 = mget QIF b i 0.
+Proof. exact (solve_tall_consistent_exact_lemma m n a b x). Qed.
+Print Assumptions solve_tall_consistent_exact.
+
+Theorem solve_tall_nonvacuous :
+  q2_ls_solve 3 2 1 su_ta su_tb = Some su_tx /\
+  exists x0 : mat QIF, forall i k, i < 3 -> k < 1 -> mget QIF (mmul QIF 3 2 1 su_ta x0) i k = mget QIF su_tb i k.
+Proof. exact SolveUnique.solve_tall_nonvacuous. Qed.
+Print Assumptions solve_tall_nonvacuous.
+
+(* every n, flat row-major arrays as the C code passes them: when the LU model reports a non-zero
+   determinant, A \ B (resp. B / A) is THE solution *)
+Theorem lu_left_divide_unique (n : nat) (a b s : list qi) :
+  length s = n * n ->
+  (forall i j, i < n -> j < n ->
+     @sumf QIF n (fun k => @cmul QIF (nth (i * n + k) a (@c0 QIF)) (nth (k * n + j) s (@c0 QIF))) = nth (i * n + j) b (@c0 QIF)) ->
+  let r := q_mldivide (munflat QIF n n a) (munflat QIF n n b) n n in
+  snd r <> @c0 QIF -> mflat QIF (fst r) = s.
+Proof. exact (mldivide_unique QIF Qc qi_nrm Qcmult Qc_ltb 0%Qc row_scale_of_max n a b s). Qed.
+Print Assumptions lu_left_divide_unique.
+
+Theorem lu_right_divide_unique (n : nat) (a b s : list qi) :
+  length s = n * n ->
+  (forall i j, i < n -> j < n ->
+     @sumf QIF n (fun k => @cmul QIF (nth (i * n + k) s (@c0 QIF)) (nth (k * n + j) a (@c0 QIF))) = nth (i * n + j) b (@c0 QIF)) ->
+  let r := q_mrdivide (munflat QIF n n b) (munflat QIF n n a) n n in
+  snd r <> @c0 QIF -> mflat QIF (fst r) = s.
+Proof. exact (mrdivide_unique QIF Qc qi_nrm Qcmult Qc_ltb 0%Qc row_scale_of_max n a b s). Qed.
+Print Assumptions lu_right_divide_unique.
+
+(* ---- composition on the models as coded ---- *)
+
+(* Bound in the statement: apply_cases (40).  ALL error terms, measurements and S at the Gaussian
+   rationals: if the measurement satisfies the documented equation with the error terms and the model of
+   vnacal_apply (fill as coded, exact LU model) reports success, its result is S. *)
+Theorem apply_model_recovers_S (ty : caltype) (mr mc : nat) (e m s : list qi) :
+  In (ty, (mr, mc)) apply_cases ->
+  let p := Nat.max mr mc in
+  length e = nterms ty mr mc -> length m = p * p -> length s = p * p ->
+  (forall i j, i < p -> j < p -> doc_cell QIF ty mr mc e m s i j = @c0 QIF) ->
+  forall a b x, q_apply ty mr mc e m = AOk a b x -> x = s.
+Proof. exact (apply_model_recovers_S_lemma ty mr mc e m s). Qed.
+Print Assumptions apply_model_recovers_S.
+
+Theorem apply_model_recovers_S_nonvacuous :
+  In (T8, (2, 2)) apply_cases /\ length ex_e = nterms T8 2 2 /\
+  (forall i j, i < 2 -> j < 2 -> doc_cell QIF T8 2 2 ex_e ex_s ex_s i j = @c0 QIF) /\
+  exists a b, q_apply T8 2 2 ex_e ex_s = AOk a b ex_s.
+Proof. exact ApplyRecovers.apply_model_recovers_S_nonvacuous. Qed.
+Print Assumptions apply_model_recovers_S_nonvacuous.
+
+(* No bound: every type, all dimensions, every list of standards and parameter values.  If xt satisfies
+   every equation assembled (as coded) for the system and the system determines it (square: implied by
+   the solver's non-zero determinant; tall: trivial kernel, hypothesis), the solver model returns xt. *)
+Theorem solve_system_recovers ty mr mc (ms : list (mvals qops)) (pval : Z -> qi) (sys : nat)
+        (rows : list (list qi * qi)) (x xt : list qi) :
+  q_solve_system ty mr mc ms pval sys = SysOk rows x ->
+  let n := unknowns ty mr mc in
+  length xt = n ->
+  (forall r, In r rows -> rdot n (fst r) xt = snd r) ->
+  (n < length rows -> kernel_trivial n rows) ->
+  rows = q_assemble ty mr mc ms pval sys /\ x = xt.
+Proof. exact (solve_system_recovers_lemma ty mr mc ms pval sys rows x xt). Qed.
+Print Assumptions solve_system_recovers.
+
+(* the tall case with its trivial-kernel hypothesis can be met: four reflection standards on one port *)
+Theorem solve_system_recovers_tall_nonvacuous :
+  let rows := q_assemble T8 1 1 ex_ms4 ex_pval4 0 in
+  length rows = 4 /\ unknowns T8 1 1 = 3 /\
+  (forall r, In r rows -> rdot 3 (fst r) (ex_ts :: ex_ti :: ex_tx :: nil) = snd r) /\
+  kernel_trivial 3 rows /\
+  exists rows', q_solve_system T8 1 1 ex_ms4 ex_pval4 0 = SysOk rows' (ex_ts :: ex_ti :: ex_tx :: nil).
+Proof. exact EndToEnd.solve_system_recovers_tall_nonvacuous. Qed.
+Print Assumptions solve_system_recovers_tall_nonvacuous.
+
+(* ... and the saved vector is the true one: unity terms inserted, leakage means appended, converted
+   by convert_ue14_to_e12 for E12 *)
+Theorem error_terms_recover ty mr mc (ms : list (mvals qops)) (pval : Z -> qi)
+        (xs_true : list (list qi)) (e : list qi) :
+  let n := unknowns ty mr mc in
+  let nsys := systems_of ty mc in
+  length xs_true = nsys ->
+  (forall sys, sys < nsys ->
+     let xt := nth sys xs_true nil in
+     let rows := q_assemble ty mr mc ms pval sys in
+     length xt = n /\ (forall r, In r rows -> rdot n (fst r) xt = snd r) /\
+     (n < length rows -> kernel_trivial n rows)) ->
+  q_error_terms ty mr mc ms pval = Some e ->
+  e = (if caltype_eqb ty E12_UE14 then convert_ue14_to_e12 qops mr mc (e_vector qops ty mr mc ms xs_true)
+       else e_vector qops ty mr mc ms xs_true).
+Proof. exact (error_terms_recover_lemma ty mr mc ms pval xs_true e). Qed.
+Print Assumptions error_terms_recover.
+
+(* calibrate-then-apply on the models as coded.  Bound in the statement: apply_cases (8 stored types x
+   1x1..4x4, 1x2 / 2x1); every list of standards, parameter values, measured values, every device.
+   PARTIAL with respect to the property: (1) the calibration hypothesis is "the true normalised terms
+   satisfy every assembled equation", not "the measurements of the standards come from the error
+   network" -- the bridge is assembled_row_is_equation_cell / assembled_eq_matrix_cell (one standard at a
+   time, no known-zero cells) and leak_mean_exact; (2) tall systems need the trivial-kernel hypothesis;
+   (3) exact arithmetic; (4) models, tied to the C code by the exact comparisons of checks/C01.py. *)
+Theorem c01_model_end_to_end_partial (ty : caltype) (mr mc : nat) :
+  In (ty, (mr, mc)) apply_cases ->
+  let sty := solve_type ty in
+  let n := unknowns sty mr mc in
+  let nsys := systems_of sty mc in
+  let p := Nat.max mr mc in
+  forall (ms : list (mvals qops)) (pval : Z -> qi) (xs_true : list (list qi)) (e : list qi),
+  length xs_true = nsys ->
+  (forall sys, sys < nsys ->
+     let xt := nth sys xs_true nil in
+     let rows := q_assemble sty mr mc ms pval sys in
+     length xt = n /\ (forall r, In r rows -> rdot n (fst r) xt = snd r) /\
+     (n < length rows -> kernel_trivial n rows)) ->
+  q_error_terms sty mr mc ms pval = Some e ->
+  e = true_terms ty mr mc ms xs_true /\
+  forall m s : list qi, length m = p * p -> length s = p * p ->
+  (forall i j, i < p -> j < p -> doc_cell QIF ty mr mc (true_terms ty mr mc ms xs_true) m s i j = @c0 QIF) ->
+  forall a b x, q_apply ty mr mc e m = AOk a b x -> x = s.
+Proof. exact (c01_model_end_to_end_lemma ty mr mc). Qed.
+Print Assumptions c01_model_end_to_end_partial.
+
+(* a one-port T8 calibration with three reflection standards, a non-ideal VNA and a complex device:
+   every hypothesis holds, the solve returns the true terms and apply returns the device *)
+Theorem c01_model_end_to_end_nonvacuous :
+  In (T8, (1, 1)) apply_cases /\
+  length ex_ms = 3 /\ length ex_xs = systems_of T8 1 /\
+  (let xt := nth 0 ex_xs nil in let rows := q_assemble T8 1 1 ex_ms ex_pval 0 in
+   length rows = 3 /\ length xt = unknowns T8 1 1 /\
+   (forall r, In r rows -> rdot (unknowns T8 1 1) (fst r) xt = snd r) /\
+   (unknowns T8 1 1 < length rows -> kernel_trivial (unknowns T8 1 1) rows)) /\
+  q_error_terms T8 1 1 ex_ms ex_pval = Some (true_terms T8 1 1 ex_ms ex_xs) /\
+  true_terms T8 1 1 ex_ms ex_xs = ex_ts :: ex_ti :: ex_tx :: qi1 :: nil /\
+  doc_cell QIF T8 1 1 (true_terms T8 1 1 ex_ms ex_xs) (ex_meas ex_dut :: nil) (ex_dut :: nil) 0 0 = @c0 QIF /\
+  exists a b, q_apply T8 1 1 (true_terms T8 1 1 ex_ms ex_xs) (ex_meas ex_dut :: nil) = AOk a b (ex_dut :: nil).
+Proof. exact EndToEnd.c01_model_end_to_end_nonvacuous. Qed.
+Print Assumptions c01_model_end_to_end_nonvacuous.
+
 (* ------------------------------------------------------------------------------------------------ *)
 From mathcomp Require Import all_ssreflect all_fingroup all_algebra.
 Require LV.Cal.CalAlgebra.
